@@ -41,6 +41,13 @@ type Case struct {
 	Big    bool   // kill modes
 	Frac   int    // kill-delay: per-mille of the measured full duration
 	When   int    // kill-syscall: k-th write-class syscall (per thread)
+	// Fault: instead of killing the process, the k-th write-class syscall (and,
+	// with Persist, every later one of that thread) fails with this errno.  The
+	// command must then exit non-zero, or exit 0 with a complete index; what it
+	// leaves behind is examined like the remainder of a killed run (it is the
+	// file a kill right after the failed call would leave).
+	Fault   string
+	Persist bool
 	// Torn: non-zero adds, between every two consecutive states of the output
 	// file, states in which the next write burst has only partly reached the
 	// file (commit-points mode); the value selects where each burst is cut.
@@ -48,6 +55,8 @@ type Case struct {
 	// File: what the crashed process left (only filled in when a kill-mode
 	// violation is reported, so that replay needs no process and no timing).
 	File []byte
+	// Finished: the command that left File had exited 0 (file mode).
+	Finished bool
 }
 
 func (c *Case) Summary() string {
@@ -61,11 +70,18 @@ func (c *Case) Summary() string {
 	case "kill-delay":
 		s += fmt.Sprintf(" big=%v kill-at=%d‰ of full duration", c.Big, c.Frac)
 	case "kill-syscall":
-		s += fmt.Sprintf(" big=%v kill at write-class syscall #%d", c.Big, c.When)
+		if c.Fault != "" {
+			s += fmt.Sprintf(" big=%v write-class syscall #%d fails with %s (persistently=%v)", c.Big, c.When, c.Fault, c.Persist)
+		} else {
+			s += fmt.Sprintf(" big=%v kill at write-class syscall #%d", c.Big, c.When)
+		}
 	case "kill-at-size":
 		s += fmt.Sprintf(" big=%v kill when the output reaches %d‰ of its final size", c.Big, c.Frac)
 	case "file":
 		s += fmt.Sprintf(" left-over file of %d bytes", len(c.File))
+		if c.Finished {
+			s += " of a command that exited 0"
+		}
 	}
 	return s
 }
@@ -146,6 +162,7 @@ type facts struct {
 	midpoints int // crash points strictly between first and last commit
 	partial   bool
 	torn      int // states with a partly written burst
+	faulted   bool
 	killedAt  string
 }
 
@@ -164,7 +181,10 @@ func oracle(c *Case) (facts, error) {
 	}
 	switch c.Mode {
 	case "file":
-		_, err := checkCrashFile(dir, c.File, d, uniq, "left-over file")
+		acc, err := checkCrashFile(dir, c.File, d, uniq, "left-over file")
+		if err == nil && c.Finished && !acc {
+			err = fmt.Errorf("`updog create` exited 0 but OpenIndex rejects its output")
+		}
 		return f, err
 	case "commit-points":
 		return commitPoints(c, dir, rows, d, uniq)
@@ -316,6 +336,27 @@ func tornStates(a, b []byte, seed uint64) []snap {
 	return out
 }
 
+// runBounded runs a traced command in its own process group and kills the
+// whole group when it has not exited after the limit.
+func runBounded(cmd *exec.Cmd, limit time.Duration) (out []byte, err error, hung bool) {
+	var buf bytes.Buffer
+	cmd.Stdout, cmd.Stderr = &buf, &buf
+	cmd.SysProcAttr = &syscall.SysProcAttr{Setpgid: true}
+	if err := cmd.Start(); err != nil {
+		return nil, err, false
+	}
+	done := make(chan error, 1)
+	go func() { done <- cmd.Wait() }()
+	select {
+	case err = <-done:
+	case <-time.After(limit):
+		hung = true
+		syscall.Kill(-cmd.Process.Pid, syscall.SIGKILL)
+		err = <-done
+	}
+	return buf.Bytes(), err, hung
+}
+
 var writeClass = "pwrite64,fdatasync,fsync,ftruncate,write"
 
 func killCreate(c *Case, dir string, rows []model.Row, d *model.Data, uniq string) (facts, error) {
@@ -335,6 +376,12 @@ func killCreate(c *Case, dir string, rows []model.Row, d *model.Data, uniq strin
 	}
 	args = append(args, in)
 	env := append(os.Environ(), "TMPDIR="+dir)
+	if c.Fault != "" {
+		// strace counts calls per thread: with one P nearly all writes of the
+		// command come from one thread, so that "the k-th call" of the counting
+		// run and of the faulted run are the same call
+		env = append(env, "GOMAXPROCS=1")
+	}
 	finished := false
 	switch c.Mode {
 	case "kill-delay":
@@ -425,18 +472,36 @@ func killCreate(c *Case, dir string, rows []model.Row, d *model.Data, uniq strin
 			c.When = 1 + max*(-c.When)/1000
 		}
 		log := filepath.Join(dir, "strace.log")
+		inject := fmt.Sprintf("inject=%s:signal=KILL:when=%d", writeClass, c.When)
+		if c.Fault != "" {
+			inject = fmt.Sprintf("inject=%s:error=%s:when=%d", writeClass, c.Fault, c.When)
+			if c.Persist {
+				inject += "+"
+			}
+		}
 		sargs := append([]string{"-f", "-o", log, "-e", "trace=" + writeClass,
-			"-e", fmt.Sprintf("inject=%s:signal=KILL:when=%d", writeClass, c.When), fix.UpdogBin()}, args...)
+			"-e", inject, fix.UpdogBin()}, args...)
 		cmd := exec.Command("strace", sargs...)
 		cmd.Env = env
-		outb, err := cmd.CombinedOutput()
-		finished = err == nil
+		outb, err, hung := runBounded(cmd, 90*time.Second)
+		finished = err == nil && !hung
 		lb, _ := os.ReadFile(log)
 		if len(lb) == 0 && err != nil && !strings.Contains(string(outb), "killed") {
 			return f, fmt.Errorf("INFRA: strace failed: %v: %s", err, outb)
 		}
 		n := len(regexp.MustCompile(`(?m)^\d+ +(pwrite64|fdatasync|fsync|ftruncate|write)\(.*= \d+`).FindAll(lb, -1))
 		f.killedAt = fmt.Sprintf("%d write-class syscalls completed", n)
+		if c.Fault != "" {
+			nf := len(regexp.MustCompile(`(?m)= -1 `+c.Fault+` .*\(INJECTED\)`).FindAll(lb, -1))
+			f.killedAt = fmt.Sprintf("%d write-class syscalls completed, %d failed with %s, exit 0: %v", n, nf, c.Fault, finished)
+			if hung {
+				// no listed property says that create terminates after a failed
+				// write; the file it had produced by then is examined like the
+				// remainder of a kill
+				f.killedAt += ", did not exit within 90 s and was killed by the harness"
+			}
+			f.faulted = nf > 0
+		}
 	}
 	content, err := os.ReadFile(out)
 	if err != nil {
@@ -454,6 +519,9 @@ func killCreate(c *Case, dir string, rows []model.Row, d *model.Data, uniq strin
 		return f, cerr
 	}
 	if finished && !acc {
+		if len(content) <= 4<<20 {
+			c.File, c.Mode, c.Finished = content, "file", true
+		}
 		return f, fmt.Errorf("`updog create` exited 0 but OpenIndex rejects its output")
 	}
 	return f, nil
@@ -461,12 +529,22 @@ func killCreate(c *Case, dir string, rows []model.Row, d *model.Data, uniq strin
 
 func run(t interface{ Fatalf(string, ...any) }, c *Case) {
 	sum, mode := c.Summary(), c.Mode
+	if c.Fault != "" {
+		mode = "fault-syscall"
+	}
 	f, err := oracle(c)
 	if err != nil && strings.HasPrefix(err.Error(), "INFRA:") {
 		panic(err.Error())
 	}
 	cl := []string{"mode:" + mode}
 	nt := f.midpoints > 0 || f.partial
+	if c.Fault != "" {
+		// non-trivial: a write really failed (whatever the command then did)
+		nt = f.faulted
+		if f.faulted {
+			cl = append(cl, "write-failed:"+c.Fault)
+		}
+	}
 	if f.midpoints > 0 {
 		cl = append(cl, "multi-commit-write")
 	}
@@ -501,6 +579,18 @@ func drawData(t *rapid.T, maxN int) gen.DataSpec {
 		r.Cols = append(r.Cols, gen.ColSpec{Name: "u", Prefix: "r", Kind: gen.KUnique})
 	}
 	return gen.DataSpec{Recipe: r}
+}
+
+// drawFault: one write-class syscall of `updog create` (or every one from
+// there on) fails with an errno a full or broken disk produces.
+func drawFault(t *rapid.T, maxN, maxWhen int) *Case {
+	return &Case{Data: drawData(t, maxN), Mode: "kill-syscall", Big: rapid.Bool().Draw(t, "big"),
+		// absolute (early calls) or, negative, a per-mille of the busiest
+		// thread's number of write-class calls in an unfaulted traced run, so
+		// that the last commit is reached as often as the first
+		When:    rapid.OneOf(rapid.IntRange(1, maxWhen), rapid.IntRange(-1000, -1), rapid.IntRange(-1000, -800), rapid.IntRange(-1000, -800)).Draw(t, "when"),
+		Fault:   rapid.SampledFrom([]string{"ENOSPC", "ENOSPC", "EIO", "EDQUOT"}).Draw(t, "errno"),
+		Persist: rapid.Bool().Draw(t, "persist")}
 }
 
 func replay(cf *evid.CaseFile) error {
@@ -553,6 +643,7 @@ func TestQuick(t *testing.T) {
 			{Name: "u", Prefix: "row-number-", Kind: gen.KUnique}, {Name: "a", Kind: gen.KMod, K: 7, Prefix: "v"}}}}
 		run(rt, &Case{Data: spec, Mode: "kill-syscall", Big: rapid.Bool().Draw(rt, "big"), When: -rapid.IntRange(1, 1000).Draw(rt, "permille")})
 	})
+	fix.Check(t, "fault-syscall", 60, func(rt *rapid.T) { run(rt, drawFault(rt, 2500, 40)) })
 	fix.Check(t, "kill-at-size", 20, func(rt *rapid.T) {
 		run(rt, &Case{Data: drawData(rt, 3100), Mode: "kill-at-size", Big: rapid.Bool().Draw(rt, "big"), Frac: rapid.IntRange(0, 999).Draw(rt, "frac")})
 	})
@@ -588,6 +679,7 @@ func TestThorough(t *testing.T) {
 			{Name: "u", Prefix: "row-number-", Kind: gen.KUnique}, {Name: "a", Kind: gen.KMod, K: 7, Prefix: "v"}}}}
 		run(rt, &Case{Data: spec, Mode: "kill-syscall", Big: rapid.Bool().Draw(rt, "big"), When: -rapid.IntRange(1, 1000).Draw(rt, "permille")})
 	})
+	fix.Check(t, "fault-syscall", 300, func(rt *rapid.T) { run(rt, drawFault(rt, 3100, 60)) })
 	fix.Check(t, "kill-at-size", 100, func(rt *rapid.T) {
 		run(rt, &Case{Data: drawData(rt, 3100), Mode: "kill-at-size", Big: rapid.Bool().Draw(rt, "big"), Frac: rapid.IntRange(0, 999).Draw(rt, "frac")})
 	})
